@@ -1,5 +1,7 @@
 (* CompatTrans.v — istype_complete without the transitivity hypothesis, on the fragment where
-   transitivity of is_compatible is proved (TransThm.compat_trans_cf). *)
+   transitivity of is_compatible is proved (TransThm.compat_trans_cf).  The types are read in the
+   table the runtime tables are computed on (Compat.ci_xreg: the program's types extended with the
+   process types of fix 5eb967d); the pattern is one of the program's own types. *)
 From Quiver Require Import Base Types Rel Sem RelProofs Compat CompatProofs TransCheck TransThm.
 From Coq Require Import Arith Lia.
 Close Scope Z_scope.
@@ -7,25 +9,15 @@ Open Scope nat_scope.
 
 Theorem istype_complete_cf : forall cfg fuel I c t tau S,
   cfg_retract cfg = true -> cfg_partial_name cfg = true ->
-  trans_domain (ci_reg I) tau = true -> trans_domain (ci_reg I) S = true -> trans_domain (ci_reg I) t = true ->
+  trans_domain (ci_xreg I) tau = true -> trans_domain (ci_xreg I) S = true -> trans_domain (ci_xreg I) t = true ->
   tau + S < fuel -> S + t < fuel -> tau + t < fuel ->
-  is_pattern I t = true ->
+  t < length (types (ci_reg I)) -> is_pattern I t = true ->
   type_of_tag I c = Some tau ->
-  is_compatible_with cfg fuel (ci_reg I) tau S = Some true ->
-  is_compatible_with cfg fuel (ci_reg I) S t = Some true ->
+  is_compatible_with cfg fuel (ci_xreg I) tau S = Some true ->
+  is_compatible_with cfg fuel (ci_xreg I) S t = Some true ->
   check_type_compatible (compute_type_compatibility cfg fuel I) c t = true.
 Proof.
-  intros cfg fuel I c t tau S Hret Hpn D1 D2 D3 F1 F2 F3 Hpat Htag H1 H2.
+  intros cfg fuel I c t tau S Hret Hpn D1 D2 D3 F1 F2 F3 Hlt Hpat Htag H1 H2.
   eapply istype_complete; try eassumption.
-  - (* t is a registered id: it is in the domain *)
-    unfold trans_domain in D3. apply andb_true_iff in D3. destruct D3 as [_ D3].
-    remember (length (types (ci_reg I))) as k eqn:Hk. cbn [cfb] in D3.
-    destruct (lookup_type (ci_reg I) t) as [ty0|] eqn:Hl.
-    + rewrite Hk. apply nth_error_Some.
-      intro Hc.
-      unfold lookup_type in Hl.
-      rewrite Hc in Hl.
-      discriminate Hl.
-    + discriminate D3.
-  - intros _ _. exact (compat_trans_cf cfg (ci_reg I) fuel tau S t Hret Hpn D1 D2 D3 F1 F2 F3 H1 H2).
+  intros _ _. exact (compat_trans_cf cfg (ci_xreg I) fuel tau S t Hret Hpn D1 D2 D3 F1 F2 F3 H1 H2).
 Qed.
